@@ -56,6 +56,13 @@ def scenarios(ctx, rend):
         ("last-value-false", "println(1)\nfalse"), ("last-value-nil", "nil"), ("last-value-func", "func f() { throw \"never called\" }\nf"),
         # -e with an empty source executes the empty program
         ("empty-source", ""), ("blank-source", " \n"),
+        # what the script file holds is the source, byte for byte: a byte order mark is not dropped for the command only
+        ("bom-file", "\ufeffprintln(\"hi\")"), ("bom-only", "\ufeff"), ("bom-comment", "\ufeff# c\nprintln(1)"), ("bom-mid", "println(1)\n\ufeffprintln(2)"), ("bom-twice", "\ufeff\ufeffprintln(1)"),
+        ("latin1-bytes", "println(\"caf\u00e9\")"),
+        # a run error is a run error whatever its Go type (a builtin failing on a file, a package function's error thrown on)
+        ("load-missing-top", "println(1)\nload(\"nope-does-not-exist.ank\")\nprintln(2)"), ("load-dir-top", "println(1)\nload(\"/\")"), ("load-missing-in-func", "func f() { load(\"nope-does-not-exist.ank\") }\nprintln(1)\nf()"),
+        ("load-missing-caught", "try { load(\"nope-does-not-exist.ank\") } catch e { println(\"caught\") }"),
+        ("throw-go-error", "os = import(\"os\")\nr = os.Open(\"/nonexistent-dir-zz/f\")\nprintln(1)\nthrow r[1]"), ("throw-nested-error", "errors = import(\"errors\")\nthrow errors.New(\"plain\")"),
         ("div-zero", "println(1 % 0)"), ("deep-error", "func f() { return g() }\nfunc g() { throw \"deep\" }\nprintln(0)\nf()"),
     ]
     scripts += [("sp-" + n, s) for n, s in special]
